@@ -79,6 +79,7 @@ const (
 	entryPub   = "import { f } from m;\npub fn g() -> int { 1 }\npub let v = 1;\npub type T = int;\nfn main() { f(); }\n"
 	entryCycle = "import { f } from a;\nfn main() { f(); }\n"
 	cycleB     = "pub fn g() {}\n"
+	goodMod    = "pub fn ok() {}\npub let okv = 1;\n"
 )
 
 type built struct {
@@ -123,6 +124,21 @@ var variants = map[string]func(c Case) built{
 	"not-found": func(c Case) built {
 		return built{mods: map[string]string{"main": "import { f } from m;\n" + c.Text}}
 	},
+	// the text is one of SEVERAL imported modules: before and after a good one, behind a good one, imported twice
+	"mod-then-good": func(c Case) built {
+		return built{mods: map[string]string{"main": "import { f } from m;\nimport { ok } from good;\nfn main() { f(); ok(); }\n", "m": c.Text, "good": goodMod}, asModule: true}
+	},
+	"good-then-mod": func(c Case) built {
+		return built{mods: map[string]string{"main": "import { ok } from good;\nimport { f } from m;\nfn main() { f(); ok(); }\n", "m": c.Text, "good": goodMod}, asModule: true}
+	},
+	"mod-behind-good": func(c Case) built {
+		return built{mods: map[string]string{"main": "import { mid } from middle;\nfn main() { mid(); }\n",
+			"middle": "import { f } from m;\nimport { ok } from good;\npub fn mid() { f(); ok(); }\n", "m": c.Text, "good": goodMod}, asModule: true}
+	},
+	"mod-twice": func(c Case) built {
+		return built{mods: map[string]string{"main": "import { f } from m;\nimport { ok } from good;\nimport { f2 } from m;\nfn main() { f(); f2(); ok(); }\n",
+			"m": c.Text, "good": "import { f } from m;\npub fn ok() { f(); }\n"}, asModule: true}
+	},
 	// ... and when an import of the imported module is resolved
 	"mod-host-error": func(c Case) built {
 		return built{mods: map[string]string{"main": entryNamed, "m": "import { g } from z;\n" + c.Text}, errMods: []string{"z"}, asModule: true}
@@ -132,7 +148,8 @@ var variants = map[string]func(c Case) built{
 	},
 }
 
-var moduleVariants = []string{"mod-named", "mod-plain", "mod-kinds", "mod-imports-entry", "mod-self", "cycle", "host-error", "not-found", "mod-host-error", "mod-not-found"}
+var moduleVariants = []string{"mod-named", "mod-plain", "mod-kinds", "mod-imports-entry", "mod-self", "cycle", "host-error", "not-found", "mod-host-error", "mod-not-found",
+	"mod-then-good", "good-then-mod", "mod-behind-good", "mod-twice"}
 
 var (
 	chainRe   = regexp.MustCompile(`^chain-([0-9]+)$`)
